@@ -204,6 +204,8 @@ func (sc *c10Scenario) Run(s *simrt.Sim) {
 			cs.level = 2
 		}
 	}
+	other := fpgo.PublisherNewGenerics[int]()
+	foreign := other.Subscribe(fpgo.Subscription[int]{OnNext: func(int) {}})
 	var ths []*simrt.Thread
 	val := 0
 	for ti, ops := range sc.Threads {
@@ -220,6 +222,10 @@ func (sc *c10Scenario) Run(s *simrt.Sim) {
 				case "Subscribe":
 					newSub(name, p, false, "none", 0)
 				case "Unsubscribe":
+					if op.Sub == 0 && val%2 == 1 {
+						// a subscription of another publisher / a nil pointer: must be a no-op
+						h.Do(name, "Unsubscribe-foreign", nil, func() (interface{}, error) { p.Unsubscribe(foreign); p.Unsubscribe(nil); return nil, nil })
+					}
 					unsubscribe(name, sc.subs[op.Sub])
 				}
 				s.Yield()
